@@ -258,6 +258,21 @@ func init() {
 				}
 				return
 			}
+			var cs8 struct {
+				S      bool `json:"close_during_stalled_delivery"`
+				Cached bool `json:"cached"`
+				Which  int  `json:"stalled_scope"`
+			}
+			if json.Unmarshal(ctx.Replay, &cs8) == nil && cs8.S {
+				ctx.Case(cs8, "", "root-close-during-stalled-delivery", "")
+				for k := 0; k < 10; k++ {
+					if f := c08InFlight(cs8.Cached, false, cs8.Which); f != "" {
+						ctx.Fail("deliveries_add_up_to_increments", f, cs8, nil)
+						return
+					}
+				}
+				return
+			}
 			var rr struct {
 				Kind   string `json:"concurrent_recorders"`
 				Cached bool   `json:"cached"`
@@ -271,7 +286,7 @@ func init() {
 					if rr.Kind == "first-use" {
 						f = c01FirstUse(rr.Cached, 400, rr.Par)
 					} else {
-						f = c01HistRecorders(rr.Cached, rr.Dur, 400, rr.Par)
+						f = c01HistRecorders(rr.Cached, rr.Dur, 1500, rr.Par)
 					}
 					if f != "" {
 						ctx.Fail("deliveries_add_up_to_increments", f, rr, nil)
@@ -384,6 +399,16 @@ func init() {
 				break
 			}
 		}
+		// root Close while a periodic pass is stalled inside a delivery (real ticker, default shard
+		// count), every counter incremented in between: the sums must add up when Close returns (stream of C08)
+		for k := 0; k < 12; k++ {
+			cs := map[string]interface{}{"close_during_stalled_delivery": true, "cached": k%2 == 1, "stalled_scope": k / 2 % 3}
+			ctx.Case(cs, "", "root-close-during-stalled-delivery", "")
+			if f := c08InFlight(k%2 == 1, false, k/2%3); f != "" {
+				ctx.Fail("deliveries_add_up_to_increments", f, cs, nil)
+				break
+			}
+		}
 		// only the recording side is concurrent: first use of one counter by several goroutines at once;
 		// samples into different buckets of a fresh histogram at once; then one pass
 		for k, nk := 0, ctx.N(4, 40); k < nk; k++ {
@@ -395,11 +420,11 @@ func init() {
 				break
 			}
 		}
-		for k, nk := 0, ctx.N(4, 40); k < nk; k++ {
-			par := 2 + k%3*2
+		for k, nk := 0, ctx.N(9, 60); k < nk; k++ {
+			par := []int{2, 4, 12, 8, 6, 12, 3, 8, 12}[k%9]
 			cs := map[string]interface{}{"concurrent_recorders": "histogram-buckets", "cached": k%2 == 1, "durations": k%4 >= 2, "goroutines": par}
 			ctx.Case(cs, "", "concurrent-recorders-histogram-buckets", "")
-			if f := c01HistRecorders(k%2 == 1, k%4 >= 2, 400, par); f != "" {
+			if f := c01HistRecorders(k%2 == 1, k%4 >= 2, 1500, par); f != "" {
 				ctx.Fail("deliveries_add_up_to_increments", "histogram bucket counts: "+f, cs, nil)
 				break
 			}
